@@ -235,6 +235,13 @@ def r3(ctx, chk):
                 colon_ok = "R" in facts
                 facts -= {"R"}      # 'x :' -> 'x '
             else:
+                if not colon_seen:
+                    es = rx.end_sensitive_constructs(pat)
+                    chk.ob("C18.R4", "%s (applied before the trailing colon is trimmed) does not look at what ends the string" % op["name"], not es,
+                           "the pattern contains %s: 'x' and 'x:' are treated differently by this stage, so appending a colon changes the "
+                           "sanitised string" % ", ".join(sorted(set(es))),
+                           key={"function": f.key, "construct": "end-sensitive regex before colon trim " + op["name"]},
+                           file=f.file, function=f.qual, line=op["line"], text=op["text"])
                 if canon:
                     n_post += 1
                 else:
